@@ -239,16 +239,15 @@ theorem C09_repeated_power_loss_bytes (so : StrictOrder kind.lt) (hH : Hash32 H)
     (hsave : ∀ idx' un, applyOp kind.lt m.idx op = .ok (idx', un) → SaveOK kind idx')
     (hver : m.next + 1 < U64)
     (cfg : Config) (hk : cfg.kind = kind) (hn : cfg.N = N)
-    (hsaveAny : ∀ (dd : Disk) a, logical H kind dd = .ok a → SaveOK kind a.idx ∧ a.highest + 1 < U64)
     (j j2 : Nat) :
     ∃ evs m', logAndApply H m d op raw = .ok (evs, m') ∧
       let d1 := (d.applyAll (evs.take j)).powerLoss (fun _ => true)
-      ∀ e1 pre, settingsGate cfg d1 = .ok (e1, pre) →
+      (OpenOK H kind cfg d1 →
       let d2 := (d1.applyAll ((openBody H cfg d1).1.take j2)).powerLoss (fun _ => true)
-      ∀ e1' pre', settingsGate cfg d2 = .ok (e1', pre') →
+      OpenOK H kind cfg d2 →
       ∃ m2 sys2 hist2, (∀ m' sc, (openBody H cfg d2).2 = .ok (m', sc) → m' = m2) ∧
         (m2.idx.map = m.idx.map ∨ m2.idx.map = mapApply kind.lt m.idx.map op) ∧
-        Tied H kind sz N m2 sys2 hist2 (d2.applyAll (openBody H cfg d2).1) := by
+        Tied H kind sz N m2 sys2 hist2 (d2.applyAll (openBody H cfg d2).1)) := by
   obtain ⟨evs, m', hrun, hpre, _, _⟩ :=
     logAndApply_sim H kind sz N so hH m sys hist d t op raw hraw hconv hop hwf hsave hver
   have hM := t.mem_eq H kind sz N
@@ -263,7 +262,7 @@ theorem C09_repeated_power_loss_bytes (so : StrictOrder kind.lt) (hH : Hash32 H)
   have hw := t.cfg.rel.wf
   have hdisc := logAndApply_disc H m d op raw evs m' hrun
   refine ⟨evs, m', hrun, ?_⟩
-  intro d1 e1 pre hg d2 e1' pre' hg'
+  intro d1 ⟨e1, pre, hg, hsv⟩ d2 ⟨e1', pre', hg', hsv'⟩
   -- first loss image: recoverable, fully synced
   have r1 : Recoverable H kind sz N _ d1 := powerLoss_allPre H kind sz N _ evs d hw hdur hdisc hpre j _
   have hle1 : SyncLe (d.applyAll (evs.take j)) := hle.applyAll d hw _
@@ -272,11 +271,9 @@ theorem C09_repeated_power_loss_bytes (so : StrictOrder kind.lt) (hH : Hash32 H)
   have c1' := c1.crash H kind sz N sys1 hist1 d1
   -- the first recovery, cut and hit by the second loss
   have w1 : d1.WF := c1.rel.wf
-  have p2 := C09_open_power_loss_bytes H kind sz N so hH cfg hk hn _ hist1 d1 c1' rfl dur1 e1 pre hg
-    (fun a ha => hsaveAny _ a ha)
+  have p2 := C09_open_power_loss_bytes H kind sz N so hH cfg hk hn _ hist1 d1 c1' rfl dur1 e1 pre hg hsv
   -- that image is itself recoverable to `hist1` (as a configuration, not only through `logical`)
-  obtain ⟨acc, hl, _, _, hpreO, _⟩ := open_sim H kind sz N so hH cfg hk hn _ hist1 d1 c1' rfl e1 pre hg
-    (fun a ha => hsaveAny _ a ha)
+  obtain ⟨acc, hl, _, _, hpreO, _⟩ := open_sim H kind sz N so hH cfg hk hn _ hist1 d1 c1' rfl e1 pre hg hsv
   have hl' : logical H cfg.kind (d1.applyAll e1) = .ok acc := by rw [hk]; exact hl
   obtain ⟨ck, hck, hev, _⟩ := openBody_eq H cfg d1 e1 pre acc hg hl'
   have hdiscO : Disc (openBody H cfg d1).1 := by
@@ -298,7 +295,7 @@ theorem C09_repeated_power_loss_bytes (so : StrictOrder kind.lt) (hH : Hash32 H)
     powerLoss_allPre H kind sz N _ _ d1 w1 dur1 hdiscO hpreO j2 _
   -- the final recovery
   obtain ⟨h2, hh2, acc2, _, hr2, _, m2, sys2, hm2, hmap2, t2⟩ :=
-    open_of_recoverable H kind sz N so hH cfg hk hn _ d2 r2 e1' pre' hg' (fun a ha => hsaveAny _ a ha)
+    open_of_recoverable H kind sz N so hH cfg hk hn _ d2 r2 e1' pre' hg' hsv'
   simp only [List.mem_singleton] at hh2
   subst hh2
   refine ⟨m2, sys2, h2, hm2, ?_, t2⟩
